@@ -665,6 +665,11 @@ def fwd_position(m: Model, d: Data, factorize: bool = True):
     else:
       collision_driver.collision(m, d)
 
+  if m.eq_connect_adr.size or m.eq_wld_adr.size:
+    # connect and weld rows subtract Jdot * qvel from aref, computed from cvel and cdof_dot: these
+    # must belong to the current state, not to the previous call's velocity stage
+    smooth.com_vel(m, d)
+
   constraint.make_constraint(m, d)
 
   if sleep_enabled:
